@@ -17,7 +17,7 @@ pub fn lexemes() -> Vec<&'static str> {
         "a", "<", ">", "/", " ", "=", "\"", "'", "&", ";", "#", "!", "-", "?", "x", "\n", "\r", "\r\n", "\t", "\x0C",
         "0", "9", "A", "F", "X", "Z", "f", "z", "[", "]", "`", "\0", "\u{7f}", "\u{e9}", "\u{feff}", "\u{fffe}",
         "\u{1F600}", "--", "doctype", "DOCTYPE", "public", "SYSTEM", "[CDATA[", "script", "amp", "amp;", "not",
-        "notin;", "#x", "t", "r", "pt", P16, "SCRIPT", "T", "PUBLIC", "system",
+        "notin;", "#x", "t", "r", "pt", P16, "SCRIPT", "T", "PUBLIC", "system", "[cdata[", "[CDaTA[",
     ]
 }
 
@@ -426,7 +426,7 @@ pub fn main(ctx: &Ctx, lines: bool) -> ! {
         }));
     }
     let simd = simd_windows(ctx, &mode, &stats, ctx.tier.pick(34, 50));
-    ctx.assume("lexeme alphabet of 57 symbols: one representative per character class any spec state distinguishes, plus multi-character lexemes (keywords in both cases, entity names, 16 x's to enter the SIMD stride); characters outside these classes are assumed to behave like their class representative");
+    ctx.assume(&format!("lexeme alphabet of {} symbols: one representative per character class any spec state distinguishes, plus multi-character lexemes (case-insensitive keywords in both cases, the case-sensitive [CDATA[ also in wrong case, entity names, 16 x's to enter the SIMD stride); characters outside these classes are assumed to behave like their class representative", lex.len()));
     ctx.assume("state key = abstract implementation dump (token buffers reduced to min(len,2) + the predicates the code tests) x R-tok control state; every transition is validated with two closers (EOF, and \"'>-->]]> which flushes every token buffer) so merged states have verified contents");
     ctx.assume("R-tok: reference transliteration of the WHATWG tokenizer (engine/src/rtok.rs); entity table exported from python's html.entities.html5; parse errors are not compared");
     ctx.assume("start states limited to the six the fragment algorithm can select; switch policy t/title/textarea->RCDATA, r/style/xmp/iframe/noembed/noframes->RAWTEXT, script->script data, pt/plaintext->PLAINTEXT");
